@@ -14,7 +14,7 @@ from ..model import refcsv
 PROPERTY = 'C11'
 LEVEL = 'exploration'
 
-DELIMS = [',', '\t', ';', ' ', '::', '|', '→']
+DELIMS = [',', '\t', ';', ' ', '::', '|', '→', ', ']
 NSHARDS_PER_DELIM = {'quick': 3, 'thorough': 6}
 MAXLEN = {'quick': 8, 'thorough': 9}
 MAXLEN_MULTI = {'quick': 6, 'thorough': 7}
@@ -194,7 +194,7 @@ def run_js_leg(spec, res):
         return
     try:
         batch = []
-        for dlm in [',', ' ', '\t', '::']:
+        for dlm in [',', ' ', '\t', '::', ', ', ' | ']:
             syms = alphabet_for(dlm)
             maxlen = spec['maxlen'] - (1 if len(syms) > 4 else 0)
             for tup in enum.words(syms, maxlen):
